@@ -13,6 +13,8 @@ func main() {
 		registryMain(os.Args[2:])
 	case "encrypt":
 		encryptMain(os.Args[2:])
+	case "enctree":
+		enctreeMain(os.Args[2:])
 	case "ce":
 		ceMain(os.Args[2:])
 	case "json":
